@@ -42,7 +42,7 @@ def prepare(ctx, prop_file, own_files):
     g16m = os.path.join(common.VERIF, "coq", "g16", "Model.vo")
     g01p = os.path.join(common.VERIF, "coq", GROUP, "ReqPipeline.vo")
     if os.path.exists(g16m) and os.path.exists(g01p) and os.path.getmtime(g16m) >= os.path.getmtime(g01p):
-        for f in ("ReqPipeline", "ReqCheck", "ReqE2E", "ReqProofs", "RouteProofs", "E2EProofs", "Ob01", "C01", "C18"):
+        for f in ("ReqPipeline", "ReqCheck", "ReqE2E", "ReqProofs", "RouteProofs", "TransportTac", "TransportProofs", "TransportProofs2", "E2EProofs", "Ob01", "C01", "C18"):
             for ext in (".vo", ".vos", ".vok", ".glob"):
                 try:
                     os.remove(os.path.join(common.VERIF, "coq", GROUP, f + ext))
